@@ -162,6 +162,33 @@ static std::string crash_sig (const std::string &err, int status) {
     size_t q = err.find (": ", p + 7) + 2;
     size_t e = err.find_first_of (" \n", q);
     kind = "asan:" + err.substr (q, e - q);
+  } else if ((p = err.find ("WARNING: ThreadSanitizer: ")) != std::string::npos) {
+    // signature = kind + the top non-runtime frames of the two accesses (root cause: the racing source lines)
+    size_t e = err.find_first_of ("(\n", p + 26);
+    std::string k = err.substr (p + 26, e - (p + 26));
+    while (!k.empty () && k.back () == ' ') k.pop_back ();
+    std::vector<std::string> tops;
+    size_t q = p;
+    for (int acc = 0; acc < 2; acc++) {
+      size_t h = err.find ("#0 ", q);
+      if (h == std::string::npos) break;
+      size_t le = err.find ('\n', h);
+      std::string line = err.substr (h + 3, le - h - 3);
+      // "func file:line:col (binary+0x..)"
+      size_t sp = line.find (' ');
+      std::string fn = line.substr (0, sp), rest = sp == std::string::npos ? "" : line.substr (sp + 1);
+      size_t sp2 = rest.find (' ');
+      std::string loc = rest.substr (0, sp2);
+      size_t sl = loc.rfind ('/');
+      if (sl != std::string::npos) loc = loc.substr (sl + 1);
+      tops.push_back (fn + "@" + loc);
+      q = err.find ("Previous ", le);
+      if (q == std::string::npos) break;
+    }
+    std::sort (tops.begin (), tops.end ());
+    kind = "tsan:" + k;
+    for (auto &t : tops) kind += ":" + t;
+    return kind;
   } else if ((p = err.find ("runtime error: ")) != std::string::npos) {
     size_t e = err.find ('\n', p);
     std::string msg = err.substr (p + 15, e - p - 15);
